@@ -97,7 +97,7 @@ DictStep(act) ==
 SimStep ==
   IF phase = "idle" THEN \E md \in One(Modes) : Begin(md)
   ELSE IF nops >= MaxOps THEN Commit
-  ELSE \E act \in One(1..59) :
+  ELSE \E act \in One(1..61) :
          CASE act \in 1..23  -> ArrStep(act)
            [] act \in 24..32 -> CStep(act)
            [] act \in 33..46 -> DictStep(act)
@@ -107,6 +107,8 @@ SimStep ==
            [] act \in 54..56 -> DictStep(33)
            [] act \in 57..58 -> ArrStep(23)       \* shrink again: sizes go up and down across the thresholds
            [] act = 59       -> DictStep(46)
+           [] act = 60       -> AMove
+           [] act = 61       -> DMove
 
 Note(l) == IF phase' = "idle" /\ l.op # "begin" THEN l @@ [com |-> PJ(com')] ELSE l
 \* the closing step: commit what is running, or just mark the end
